@@ -54,6 +54,9 @@ func convertScenarioToAmmo(sc config.ScenarioConfig, reqs map[string]config.Call
 			return nil, fmt.Errorf("failed to parse shoot %s: %w", sh, err)
 		}
 		if name == "sleep" {
+			if len(result.Calls) == 0 {
+				return nil, fmt.Errorf("sleep() can not be the first step of scenario %s: there is no request to pause after", sc.Name)
+			}
 			result.Calls[len(result.Calls)-1].Sleep += time.Millisecond * time.Duration(cnt)
 			continue
 		}
